@@ -24,6 +24,11 @@ RULE = ('interface DAG (2-6), class DAGs of 2-6 classes (diamonds, mixins '
 IDX = st.sampled_from([0, 0, 0, 1, 1, 1, 2, 2, 3, 4, 5, 7, 11])
 
 
+# thorough tier: coverage-guided campaigns on top of the random ones
+ATHERIS = [{'impl': 'py', 'n': 20000, 'name': 'py-atheris'},
+           {'impl': 'c', 'n': 20000, 'name': 'c-atheris'}]
+
+
 def configs(tier, seed):
     n = 2000 if tier == 'quick' else 25000
     return [{'name': impl + '-super', 'impl': impl, 'mode': 'hyp', 'n': n}
